@@ -26,12 +26,13 @@ Definition declared_names : list string :=
 Definition fresh (k : string) : Prop := ~ In k declared_names.
 
 Fixpoint cond_keys (c : hcond) : list string :=
-  match c with CHasKey k _ => [k] | CNot x => cond_keys x | COr a b | CAnd a b => cond_keys a ++ cond_keys b | _ => [] end.
+  match c with CHasKey k _ => [k] | CNot x | CAnyItem _ x => cond_keys x | COr a b | CAnd a b => cond_keys a ++ cond_keys b | _ => [] end.
 Fixpoint hexpr_keys (e : hexpr) : list string := match e with HKey e' k => k :: hexpr_keys e' | HIdx e' _ => hexpr_keys e' | _ => [] end.
 Fixpoint cond_exprs (c : hcond) : list hexpr :=
   match c with
   | CIsNone e | CIsPrim e | CIsStr e | CIsList e | CHasKey _ e | CEqStr e _ | CLenEq0 e => [e]
-  | CNot x => cond_exprs x | COr a b | CAnd a b => cond_exprs a ++ cond_exprs b end.
+  | CNot x => cond_exprs x | COr a b | CAnd a b => cond_exprs a ++ cond_exprs b
+  | CAnyItem e x => e :: cond_exprs x end.
 Fixpoint hret_keys (r : hret) : list string :=
   match r with
   | RSelf e | RStruct e _ | RStr e | RIntOf e => hexpr_keys e
